@@ -212,7 +212,8 @@ def assign_case(draw, max_frames=12, max_centers=16, max_feat=4, md_share=4):
                 "layout": draw(st.sampled_from(["C", "F", "strided"])),
                 "X": [int_list(draw, lo, hi, f) for _ in range(n)],
                 "C": draw_center_spec(draw, k, n, f, lo, hi),
-                "centers_as": draw(st.sampled_from(["list", "list", "array", "tuple"]))}
+                "centers_as": draw(st.sampled_from(["list", "list", "array", "tuple", "views", "data_itself"])),
+                "readonly": draw(st.sampled_from([False, False, True]))}
         numeric = draw(st.sampled_from(["plain"] * 5 + ["tiny", "offset", "near_tie"]))
         if numeric == "tiny" and dtype.startswith("float"):
             case["scale"] = draw(st.sampled_from([1e-9, 1e-10, 1e-11]))           # coordinates in metres
@@ -296,17 +297,34 @@ def run_assign(case):
         Xr = np.array(X, dtype=np.float64)
         D = R.dist_matrix(Xr, [np.array(c, dtype=np.float64) for c in C], case["metric"])
         rec = Recorder(get_metric(case["metric"]))
-        if case["centers_as"] == "array":
+        if case["centers_as"] == "data_itself":
+            # the data set assigned to itself (every frame is a center): the very same array object on both sides
+            C = [X[i] for i in range(len(X))]
+            D = R.dist_matrix(Xr, [np.array(c, dtype=np.float64) for c in C], case["metric"])
+            centers = X
+        elif case["centers_as"] == "views":
+            # centers handed over as views of the data rows (what `[X[i] for i in center_indices]` gives)
+            centers = [X[sp[1]] if sp[0] == "row" else c for sp, c in zip(case["C"], C)]
+            C = list(centers)
+        elif case["centers_as"] == "array":
             centers = np.array(C, dtype=dtype).reshape(len(C), -1)
         elif case["centers_as"] == "tuple":
             centers = tuple(C)
         else:
             centers = list(C)
+        if case.get("readonly"):
+            (X.base if isinstance(X.base, np.ndarray) else X).flags.writeable = False
+            X.flags.writeable = False
+        x_before = np.array(X, copy=True)
+        c_before = [np.array(c, copy=True) for c in (centers if not isinstance(centers, np.ndarray) else [centers])]
         a, d = cutil.assign_to_nearest_center(X, centers, rec)
+        require(np.array_equal(X, x_before) and all(np.array_equal(c, b) for c, b in zip(
+            (centers if not isinstance(centers, np.ndarray) else [centers]), c_before)),
+            "assign: the data or the centers were modified")
         check_nearest(a, d, D, tol, "assign")
         # exactness against the values the supplied metric actually returned
         exact = "skipped"
-        if case["centers_as"] in ("list", "tuple"):
+        if case["centers_as"] in ("list", "tuple", "views"):
             ids = {id(c): j for j, c in enumerate(C)}
             cols = {}
             ok = True
